@@ -9,6 +9,7 @@ and run checks against it.
 import json, os, subprocess, sys, shutil, time, glob
 
 ROOT = os.path.dirname(os.path.dirname(os.path.abspath(__file__)))
+REPO = os.environ.get("SEEDED_REPO", "/repo")       # a sandbox copy of /verif works against its own worktree of /repo
 SEEDED = os.path.join(ROOT, "seeded")
 
 
@@ -22,6 +23,10 @@ def demo_cmd(mdir):
     if os.path.exists(os.path.join(mdir, "demo.bas")):
         stdin = os.path.join(mdir, "demo.stdin")
         return "cargo run --offline -q -p rusty_basic -- %s %s" % (os.path.join(mdir, "demo.bas"), ("< " + stdin) if os.path.exists(stdin) else "< /dev/null")
+    if os.path.exists(os.path.join(mdir, "demo.rs")):
+        # a library-level demonstration: run it as an example of rusty_pc
+        return ("mkdir -p rusty_pc/examples && cp %s rusty_pc/examples/seed_demo.rs && cargo run --offline -q -p rusty_pc --example seed_demo 2>&1; "
+                "rm -f rusty_pc/examples/seed_demo.rs; rmdir rusty_pc/examples 2>/dev/null; true") % os.path.join(mdir, "demo.rs")
     return None
 
 
@@ -75,13 +80,13 @@ def run(name, checks):
     d = os.path.join(SEEDED, name)
     meta = json.load(open(os.path.join(d, "meta.json")))
     checks = checks or [meta["property"]]
-    rc, out = sh("git status --short", cwd="/repo")
+    rc, out = sh("git status --short", cwd=REPO)
     if out.strip():
-        print("/repo not clean:\n" + out)
+        print(REPO + " not clean:\n" + out)
         return 2
-    rc, out = sh("git -C /repo apply %s" % os.path.join(d, "patch.diff"))
+    rc, out = sh("git -C " + REPO + " apply %s" % os.path.join(d, "patch.diff"))
     if rc != 0:
-        print("patch does not apply to /repo:\n" + out)
+        print("patch does not apply to " + REPO + ":\n" + out)
         return 2
     try:
         for c in checks:
@@ -112,7 +117,7 @@ def run(name, checks):
             meta["checks"][c] = info
             print(name, c, info["verdict"], info["violations"], "violations", info["wall_s"], "s")
     finally:
-        sh("git -C /repo checkout -- .")
+        sh("git -C " + REPO + " checkout -- .")
         sh("cargo build", cwd=os.path.join(ROOT, "harness"))      # the harness binary must not keep the change
         with open(os.path.join(d, "meta.json"), "w") as f:
             json.dump(meta, f, indent=1)
